@@ -264,6 +264,16 @@ func (x *Exec) applyContractClosure(st *State, site ssa.Instruction, callee *ssa
 		x.yield(st)
 	}
 	rv := x.freshResult(st, callee.Signature, callee.Name())
+	if ct.Pure && closure == nil && rv.T != nil {
+		// a pure function of scalars is one uninterpreted function: equal arguments, equal results
+		var ats []*Term
+		for _, a := range args {
+			ats = append(ats, a.T)
+		}
+		if app := x.pureApp(callee, ats); app != nil {
+			st.add(Eq(rv.T, app))
+		}
+	}
 	x.setResult(st, res, rv)
 	env2 := x.callEnv(st, old, callee, names, tys, args)
 	if closure != nil {
@@ -287,7 +297,7 @@ func (x *Exec) applyContractClosure(st *State, site ssa.Instruction, callee *ssa
 		}
 		t := env2.eval(en.Expr)
 		if env2.err != nil {
-			if !strings.Contains(env2.err.Error(), "unknown identifier") {
+			if !strings.Contains(env2.err.Error(), "unknown identifier") && !strings.Contains(env2.err.Error(), "bound: no closure") {
 				x.specError(en.Expr, env2.err)
 			} // else: a clause about the callee's own locals says nothing to the caller
 			env2.err = nil
@@ -298,6 +308,32 @@ func (x *Exec) applyContractClosure(st *State, site ssa.Instruction, callee *ssa
 	if ct.Trusted {
 		x.trustedUsed[cname] = true
 	}
+}
+
+// pureApp: the application pure$f(args) for a function whose parameters and single result
+// are all of basic type (no heap dependence); nil otherwise.
+func (x *Exec) pureApp(callee *ssa.Function, args []*Term) *Term {
+	sig := callee.Signature
+	if sig.Results().Len() != 1 || len(args) != len(callee.Params) {
+		return nil
+	}
+	if _, ok := sig.Results().At(0).Type().Underlying().(*types.Basic); !ok {
+		return nil
+	}
+	var sorts []Sort
+	for i, p := range callee.Params {
+		if _, ok := p.Type().Underlying().(*types.Basic); !ok || args[i] == nil {
+			return nil
+		}
+		sorts = append(sorts, sortOfStatic(p.Type()))
+		if args[i].Sort != sorts[i] {
+			return nil
+		}
+	}
+	name := "pure$" + fnPkg(callee).Name() + "$" + callee.Name()
+	rs := sortOfStatic(sig.Results().At(0).Type())
+	theU.DeclFunc(name, rs, sorts...)
+	return App(name, rs, args...)
 }
 
 func (x *Exec) applyIfaceContract(st *State, site ssa.Instruction, c *ssa.CallCommon, ct *Contract, recv Val, args []Val, res ssa.Value) {
@@ -911,6 +947,51 @@ func (x *Exec) checkTypeInvs(st *State, r *ssa.Return) {
 // dynName names a function value by where it is read from: Struct.field for (elements of)
 // function-valued fields, <function>.<variable> for locals, captured variables and parameters.
 func (x *Exec) dynName(v ssa.Value) string { return dynNameOf(x.fn, v) }
+
+// callRecordName: the name under which applyCallInner records a call (called/calledWith/
+// returned); "" for builtins.
+func callRecordName(fn *ssa.Function, c *ssa.CallCommon) string {
+	if _, ok := c.Value.(*ssa.Builtin); ok {
+		return ""
+	}
+	if callee := c.StaticCallee(); callee != nil {
+		if !fnInModule(callee) {
+			return callee.String()
+		}
+		return relName(callee)
+	}
+	if c.IsInvoke() {
+		return types.TypeString(c.Value.Type(), func(p *types.Package) string { return p.Name() }) + "." + c.Method.Name()
+	}
+	return dynNameOf(fn, c.Value)
+}
+
+// havocLoopCalls: the call records of everything called inside a loop are unknown at its head
+// (the count only grows).
+func (x *Exec) havocLoopCalls(st *State, l *Loop) {
+	names := map[string]bool{}
+	for b := range l.Body {
+		for _, in := range b.Instrs {
+			if c, ok := in.(*ssa.Call); ok {
+				if n := callRecordName(x.fn, c.Common()); n != "" {
+					names[n] = true
+				}
+			}
+		}
+	}
+	for _, n := range sortedKeys(names) {
+		k := "#call$" + n
+		old := st.ghostInt(k)
+		nv := x.freshVar("calls", SInt)
+		st.ghost[k] = nv
+		st.add(Ge(nv, old))
+		for g := range st.ghost {
+			if strings.HasPrefix(g, "#arg$"+n+"$") || strings.HasPrefix(g, "#ret$"+n+"$") {
+				delete(st.ghost, g)
+			}
+		}
+	}
+}
 
 func dynNameOf(fn *ssa.Function, v ssa.Value) string {
 	switch u := v.(type) {
